@@ -1,10 +1,10 @@
 package rules
 
 import (
-	"strings"
 	"fmt"
 	"go/types"
 	"sort"
+	"strings"
 
 	"fqverif/fw"
 
@@ -25,8 +25,8 @@ import (
 func c13ErrVal(r *fw.Run, p *fw.Program) {
 	ru := r.Rule("C13.errval", "every value handed to gojq.TypeOf / gojq.Preview / gojqx.TypeErrorPreview, or stored into an error-struct field that the type's Error() renders through them, is a jq value: an opaque `any` from jq or a boxed bool/int/float64/string/*big.Int/[]any/map[string]any/JQValue/nil (gojq.TypeOf panics on anything else)", 40)
 	sinkFns := map[string]bool{
-		"github.com/wader/gojq.TypeOf":               true,
-		"github.com/wader/gojq.Preview":              true,
+		"github.com/wader/gojq.TypeOf":              true,
+		"github.com/wader/gojq.Preview":             true,
 		fw.Mod + "/internal/gojqx.TypeErrorPreview": true,
 	}
 	var jqValueIface *types.Interface
@@ -218,33 +218,33 @@ func c13RecvField(v ssa.Value, recv *ssa.Parameter) (c13Field, bool) {
 }
 
 func c13IsJQType(t types.Type, jqValueIface *types.Interface) bool {
-		if types.Implements(t, jqValueIface) {
+	if types.Implements(t, jqValueIface) {
+		return true
+	}
+	switch u := t.Underlying().(type) {
+	case *types.Basic:
+		switch u.Kind() {
+		case types.Bool, types.Int, types.Float64, types.String, types.UntypedNil, types.UntypedBool, types.UntypedInt, types.UntypedFloat, types.UntypedString:
+			return t == types.Typ[u.Kind()] || u.Info()&types.IsUntyped != 0
+		}
+	case *types.Pointer:
+		if n, ok := u.Elem().(*types.Named); ok && n.Obj().Pkg() != nil && n.Obj().Pkg().Path() == "math/big" && n.Obj().Name() == "Int" {
 			return true
 		}
-		switch u := t.Underlying().(type) {
-		case *types.Basic:
-			switch u.Kind() {
-			case types.Bool, types.Int, types.Float64, types.String, types.UntypedNil, types.UntypedBool, types.UntypedInt, types.UntypedFloat, types.UntypedString:
-				return t == types.Typ[u.Kind()] || u.Info()&types.IsUntyped != 0
-			}
-		case *types.Pointer:
-			if n, ok := u.Elem().(*types.Named); ok && n.Obj().Pkg() != nil && n.Obj().Pkg().Path() == "math/big" && n.Obj().Name() == "Int" {
-				return true
-			}
-		case *types.Slice:
-			if i, ok := u.Elem().Underlying().(*types.Interface); ok && i.Empty() {
-				_, named := t.(*types.Named)
-				return !named
-			}
-		case *types.Map:
-			k, kok := u.Key().(*types.Basic)
-			if i, ok := u.Elem().Underlying().(*types.Interface); ok && i.Empty() && kok && k.Kind() == types.String {
-				_, named := t.(*types.Named)
-				return !named
-			}
+	case *types.Slice:
+		if i, ok := u.Elem().Underlying().(*types.Interface); ok && i.Empty() {
+			_, named := t.(*types.Named)
+			return !named
 		}
-		return false
+	case *types.Map:
+		k, kok := u.Key().(*types.Basic)
+		if i, ok := u.Elem().Underlying().(*types.Interface); ok && i.Empty() && kok && k.Kind() == types.String {
+			_, named := t.(*types.Named)
+			return !named
+		}
 	}
+	return false
+}
 
 func c13JQValueIface(p *fw.Program) *types.Interface {
 	for _, pk := range p.SSA.AllPackages() {
@@ -266,7 +266,7 @@ func c13JQValueIface(p *fw.Program) *types.Interface {
 // (map update, indexed store, append, composite literal) is of a jq type: bool, int, float64, string, *big.Int,
 // []any, map[string]any, a JQValue, or nil.
 func c13JQType(r *fw.Run, p *fw.Program, scope []*ssa.Function) {
-	ru := r.Rule("C13.jqtype", "in jq-callable Go code every value boxed into an element of a map[string]any or []any (map update, indexed store, append / variadic literal) has a jq type (bool, int, float64, string, *big.Int, []any, map[string]any, JQValue, nil): gojq panics with 'invalid type' or overflows the stack on anything else", 80)
+	ru := r.Rule("C13.jqtype", "in jq-callable Go code every value boxed into an element of a map[string]any or []any (map update, indexed store, append / variadic literal), and every value a registered function, a JQValue protocol method or a closure of one returns as `any`, has a jq type (bool, int, float64, string, *big.Int, []any, map[string]any, JQValue, nil; an error; []gojq.PathValue for JQValueEach): gojq panics with 'invalid type' or overflows the stack on anything else", 220)
 	iface := c13JQValueIface(p)
 	if iface == nil {
 		ru.Undecided("anchor:JQValue", "", "gojq.JQValue not found")
@@ -301,10 +301,24 @@ func c13JQType(r *fw.Run, p *fw.Program, scope []*ssa.Function) {
 				ru.Except(key, p.Rel(ins.Pos()), reason)
 				return
 			}
+			if where == "result" {
+				if fn.Name() == "JQValueEach" && types.TypeString(t, nil) == "[]github.com/wader/gojq.PathValue" {
+					ru.Ok(key, p.Rel(ins.Pos()), "JQValueEach answers with []gojq.PathValue (JQValue protocol)")
+					return
+				}
+				ru.Fail(key, p.Rel(ins.Pos()), "a "+shortType(t)+" is returned to the jq interpreter as a value: gojq does not know this Go type (its own type assertions on protocol answers fail, gojq.TypeOf panics with 'invalid type' when the value is used or printed)")
+				return
+			}
 			ru.Fail(key, p.Rel(ins.Pos()), "a "+shortType(t)+" is stored as "+where+" of a jq container: gojq does not know this Go type (panic 'invalid type' / endless recursion when the value is used or printed)")
 		}
+		retAny := fn.Signature.Results().Len() == 1 && isAnyElem(fn.Signature.Results().At(0).Type()) && c13ReturnsToJQ(p, fn)
 		fw.EachInstr(fn, func(ins ssa.Instruction) {
 			switch x := ins.(type) {
+			case *ssa.Return:
+				// what a jq-callable function (registered function, JQValue method, or a closure of one) hands back as `any`
+				if retAny && len(x.Results) == 1 {
+					check(x, x.Results[0], "result")
+				}
 			case *ssa.MapUpdate:
 				if m, ok := x.Map.Type().Underlying().(*types.Map); ok && isAnyElem(m.Elem()) {
 					if k, ok := m.Key().Underlying().(*types.Basic); ok && k.Kind() == types.String {
@@ -334,6 +348,37 @@ func c13JQType(r *fw.Run, p *fw.Program, scope []*ssa.Function) {
 		})
 	}
 }
+
+// c13ReturnsToJQ: fn's `any` result goes back to the jq interpreter: a registered Go function, a JQValue
+// protocol method of an fq value type, or a closure nested in one of those (type-switch arms handed to
+// gojq.BinopTypeSwitch, iterator callbacks).
+func c13ReturnsToJQ(p *fw.Program, fn *ssa.Function) bool {
+	if c13RegTargets == nil {
+		c13RegTargets = map[*ssa.Function]bool{}
+		for f := range jqRegistered(p) {
+			c13RegTargets[f] = true
+			if f.Synthetic != "" {
+				// (*Interp).method registered as a method expression: the thunk forwards to the method
+				for _, c := range fw.CallsIn(f) {
+					if cal := c.Common().StaticCallee(); cal != nil {
+						c13RegTargets[cal] = true
+					}
+				}
+			}
+		}
+	}
+	for f := fn; f != nil; f = f.Parent() {
+		if c13RegTargets[f] {
+			return true
+		}
+		if f.Signature.Recv() != nil && strings.HasPrefix(f.Name(), "JQValue") {
+			return true
+		}
+	}
+	return false
+}
+
+var c13RegTargets map[*ssa.Function]bool
 
 var c13JQTypeExceptions = map[string]string{
 	"(*pkg/interp.Interp)._decode$2|map value#1": "int64 inside the progress object: it is only used as the INPUT of a nested evaluation (EvalFuncValues -> gojq Run), where gojq normalises every Go integer and float kind to int/float64/*big.Int (normalizeNumbers); not a function result",
@@ -372,7 +417,10 @@ func c13FeedsOnlyFormatting(ia *ssa.IndexAddr) bool {
 			}
 			if cal.Signature.Variadic() && len(c.Common().Args) > 0 && c.Common().Args[len(c.Common().Args)-1] == ssa.Value(sl) {
 				name := cal.Name()
-				if !fw.InFq(cal) || strings.HasSuffix(name, "f") || name == "NewIter" && false {
+				if cal.String() == "github.com/wader/gojq.NewIter" {
+					return false // the values an iterator function yields: jq values
+				}
+				if !fw.InFq(cal) || strings.HasSuffix(name, "f") {
 					continue
 				}
 			}
